@@ -237,6 +237,14 @@ def explore(run, tier):
                           'recs': recs})
         cases.append({'kind': 'param', 'tool': 'paramconv', 'a': 'cp500', 'b': 'latin_1', 'inb': 1, 'outb': 1, 'recs': recs})
         cases.append({'kind': 'param', 'tool': 'paramconv', 'a': 'latin_1', 'b': 'cp500', 'inb': 1, 'outb': 1, 'recs': recs})
+    # parameter files whose record stream (length prefixes, records, terminator) is an EXACT multiple of 1012 bytes: the
+    # library's writer closes such a blocked file with one fill-only block, and the conversion back must as well
+    for lens in ([1004], [1000, 1012], [3028], [500, 496, 4, 996], [1003], [1005]):
+        recs = [bytes((i * 11 + n) % 256 for i in range(n)).hex() for n in lens]
+        for a, b in (('latin_1', 'cp500'), ('cp500', 'cp037')):
+            for inb, outb in ((1, 1), (1, 0), (0, 1)):
+                cases.append({'kind': 'param', 'tool': 'param', 'a': a, 'b': b, 'inb': inb, 'outb': outb, 'recs': recs})
+        cases.append({'kind': 'param', 'tool': 'paramconv', 'a': 'cp500', 'b': 'latin_1', 'inb': 1, 'outb': 1, 'recs': recs})
     # command entry points with the DEFAULT output name, on input files called x.bin, x.out, x (the second leg of a
     # round trip done with default names converts a file that is itself called *.out)
     for fname in ('params.bin', 'params.out', 'params', 'a.b.out'):
